@@ -8,6 +8,7 @@ RAISE texts are equal whenever returned; RAISE/IMMEDIATE raise iff WARN recorded
 message count obeys max_unsupported."""
 from __future__ import annotations
 
+from vlib.paths import SQLGLOT
 import itertools
 import logging
 
@@ -102,7 +103,7 @@ def frame_of(exc) -> str:
     import traceback
 
     for fr in reversed(traceback.extract_tb(exc.__traceback__)):
-        if fr.filename.startswith("/repo/sqlglot"):
+        if fr.filename.startswith(SQLGLOT):
             return f"{fr.filename.rsplit('/', 1)[-1]}:{fr.name}"
     return "?"
 
